@@ -17,7 +17,8 @@ CLAIMED = {
        "encoder emits for its 8 flag combinations fall in the spec class with the same reset meaning, chunk sizes big-endian "
        "minus one (value-evaluated); provenance of Block sizes, Index/footer fields, check type, .lzma header. Conformance of "
        "whole streams under an independent decoder is NOT decided. Also (BLKOPT) compressed_size/uncompressed_size of the in/out Block options are reset on every path to lzma_block_header_size() in each function that starts a Block."
-       + " Further rules: (FALLBACK) the uncompressed-chunk fallback of the LZMA2 encoder is entered exactly on the documented condition and resets state afterwards.",
+       + " Further rules: (FALLBACK) the uncompressed-chunk fallback of the LZMA2 encoder is entered exactly on the documented condition and resets state afterwards."
+       + " (DICTROUND) dictionary-size rounding smear has every distance except 1; (BOUND) lzma2_bound in normal form n + 3*ceil(n/65536) + 1; SHA-256 structure rules of C14.",
   technique="layout-fact extraction and comparison (encoder vs decoder vs spec), expression evaluation on sample values, finite-domain evaluation",
   ref="4/C02"),
  "C14": dict(
@@ -44,7 +45,8 @@ CLAIMED = {
        "both sides; (TAB) encoders[]/decoders[] list the same filter IDs and the property sizes written are the sizes "
        "accepted. NOT decided: LZ parsing, prices, range coder arithmetic, window arithmetic, chunk limits, output-size "
        "limiting, dictionary wrap, and therefore losslessness for all inputs/configurations. Also (LZMA2) lzma_lzma_encoder_reset() is called in lzma2_encode exactly when need_state_reset is set, and the header writer derives and clears the same flags."
-       + " Further rules: (ORDER) lzma_lzma_encode commits its position bookkeeping before the in-loop rc_encode() can suspend, and the LZMA2 history reserve is applied after the LZMA encoder filled in lz_options; (OUTPOS) rc_shift_low and rc_shift_low_dummy advance *out_pos in single steps, each behind `*out_pos == out_size`; the LZ/LZMA decoder dictionary sibling rule of C03.",
+       + " Further rules: (ORDER) lzma_lzma_encode commits its position bookkeeping before the in-loop rc_encode() can suspend, and the LZMA2 history reserve is applied after the LZMA encoder filled in lz_options; (OUTPOS) rc_shift_low and rc_shift_low_dummy advance *out_pos in single steps, each behind `*out_pos == out_size`; the LZ/LZMA decoder dictionary sibling rule of C03."
+       + " Round-3 rules: (WINDOW) hash-chain/binary-tree walkers stop at delta >= cyclic_size; (LIMITS) the LZMA2 chunk cut-off leaves OPTS+1 bytes; (DICTFRESH) dict->full is recomputed after dict->pos moved.",
   technique="path-sensitive event-count dataflow on the CFG (exactly-once / must-precede); post-dominator must-follow; field-coverage (E-COVER) with loop-bound vs array-dimension comparison; who-may-write table; table agreement",
   ref="4/C01"),
  "C20": dict(
@@ -59,7 +61,8 @@ CLAIMED = {
        "the label fallback escapes the s delimiter, & and backslash, continues lines, under a case testing exactly those "
        "characters, constant on sed failure; (OPT) -- before every file operand; (STATUS) status captures receive only "
        "`echo $?`, xzdiff checks readability first and maps decompressor failure to 2. NOT decided: equality of output and "
-       "exit status with grep/diff/cmp, behaviour of sed/expr/grep themselves. Also: xzdiff decompresses each operand with the decompressor chosen from its own suffix; xzgrep's exit status accumulator only moves under a test of its current value.",
+       "exit status with grep/diff/cmp, behaviour of sed/expr/grep themselves. Also: xzdiff decompresses each operand with the decompressor chosen from its own suffix; xzgrep's exit status accumulator only moves under a test of its current value."
+       + " xzdiff's three suffix lists are identical.",
   technique="shell AST taint and quoting-context analysis; idiom (typestate) rule on accumulator stores; case-arm coverage of the quote character; constant evaluation of the sed programs",
   ref="4/C20"),
  "C15": dict(
@@ -75,7 +78,8 @@ CLAIMED = {
        "props dist-1/+1; (PROTO) simple_code returns STREAM_END only at end of input, advances now_pos by the filtered "
        "count, releases the tail unfiltered at EOF. NOT decided: the round trip for all inputs and slicings as such, "
        "RISC-V AUIPC pair arithmetic, IA-64 slot arithmetic, x86 prev_mask evolution as a function of all inputs. Detection predicates are evaluated by symbolic bit evaluation of the path conditions (independent of the statement shape). Also (INITCONS) now_pos / history are re-initialised on every init path."
-       + " Further rules: (READFIRST) delta history/pos and BCJ buffers a coding function reads first are reset by every OK init path; IA-64 slot predicate equals opcode 5 / btype 0 on all assignments of the relevant bits; call_filter on coder->buffer does not depend on end_was_reached.",
+       + " Further rules: (READFIRST) delta history/pos and BCJ buffers a coding function reads first are reset by every OK init path; IA-64 slot predicate equals opcode 5 / btype 0 on all assignments of the relevant bits; call_filter on coder->buffer does not depend on end_was_reached."
+       + " (SCAN) all nine scan loops visit exactly the positions p with p + window <= size.",
   technique="AST/CFG shape rule for direction symmetry; exhaustive finite-domain evaluation of branch predicates from the CFG; exact bit-routing abstract evaluation of shift/mask/or code vs reference tables; edge-cut must-pass",
   ref="4/C15"),
  "C19": dict(
@@ -95,7 +99,8 @@ CLAIMED = {
        "uncompress() returns normally only with LZMA_STREAM_END (lzmadec also requires no trailing garbage), read/write errors "
        "exit with failure; xz maps errors to E_ERROR, only LZMA_UNSUPPORTED_CHECK to a warning, never downgrades the status; "
        "provenance rules of the sparse-file optimisation (exact accounting, hole before data, tail, decompress mode, regular "
-       "file at end, O_APPEND restored); decoder flag construction. Byte equality across sinks/thread counts is NOT decided. Also: a zero-length write never reaches the lseek that materialises a pending hole; the decoder flags xz sets are exactly TELL_UNSUPPORTED_CHECK, CONCATENATED, IGNORE_CHECK (no FAIL_FAST).",
+       "file at end, O_APPEND restored); decoder flag construction. Byte equality across sinks/thread counts is NOT decided. Also: a zero-length write never reaches the lseek that materialises a pending hole; the decoder flags xz sets are exactly TELL_UNSUPPORTED_CHECK, CONCATENATED, IGNORE_CHECK (no FAIL_FAST)."
+       + " is_sparse examines every word of the buffer; coder_normal success rules of C17.",
   technique="finite-domain path-sensitive reachability (edge/block cuts), dominance and provenance rules over call arguments",
   ref="4/C18"),
  "C17": dict(
@@ -107,7 +112,8 @@ CLAIMED = {
        "dev/inode comparison; signal handlers' async-signal-safety closure and sig_atomic_t writes, block/unblock pairing, "
        "signals_exit last; every failure return of the I/O layer sets the exit status (known finding: EPIPE branch of "
        "io_write_buf). File-system state after kill -9 is NOT decided. Also (RESULT) no bool result of an xz I/O helper is discarded; (PERFILE) file-scope state that coder_init sets conditionally is reset for every file; (EXIT) E_ERROR is sticky in set_exit_status."
-       + " Further rules: every probe result (is_tty, stat) that decides skipping a file is tested.",
+       + " Further rules: every probe result (is_tty, stat) that decides skipping a file is tested."
+       + " (EOF) src_eof only where read() returned 0.",
   technique="finite-domain path-sensitive dataflow, must-pass/dominance rules, call-graph closure, who-may-call",
   ref="4/C17"),
  "C12": dict(
@@ -117,7 +123,8 @@ CLAIMED = {
        "BCJ refuse SYNC_FLUSH before any effect; LZMA2 reports flush complete only with no unencoded input and writes the end "
        "marker only for FINISH; lz_encode resets mf.action on every non-OK return; pending bytes replayed only with input; "
        "update functions restricted to their safe states, validate before storing, and cannot change Filter IDs; action "
-       "conversion table. That the flushed prefix decodes to the input is NOT decided. Also (BTFLUSH) binary-tree match finders defer to move_pending() during LZMA_SYNC_FLUSH; (PROPS) lzma_lzma_encoder_reset recomputes the lc/lp/pb masks; stream_encoder_update clears block_encoder_is_initialized before trying a new chain.",
+       "conversion table. That the flushed prefix decodes to the input is NOT decided. Also (BTFLUSH) binary-tree match finders defer to move_pending() during LZMA_SYNC_FLUSH; (PROPS) lzma_lzma_encoder_reset recomputes the lc/lp/pb masks; stream_encoder_update clears block_encoder_is_initialized before trying a new chain."
+       + " get_thread hands every woken worker the cached filter chain.",
   technique="must-pass-through (edge cut) on finite-domain product graphs, dominator rules, table comparison",
   ref="4/C12"),
  "C09": dict(
@@ -128,7 +135,8 @@ CLAIMED = {
        "every successful path and store a new limit only after the non-zero and not-below-usage tests; inits store max(1, "
        "limit); filter tables' memusage column; xz returns from coder_set_compression_settings only with usage <= limit or via "
        "the documented soft-limit escape. That estimates bound real allocations is NOT decided. Also (TERMS) the threaded decoder's admission test, cache-trimming tests and memusage report contain every accounting counter they are documented to contain; the file-info decoder passes memlimit minus the memory of the Indexes decoded so far; xz's single-threaded fallback calls hardware_threads_set(1) before re-estimating."
-       + " Further rules: direct-mode clear_cache/threads_end before the single-thread decoder allocates; lz decoder reallocates the dictionary only when the size differs; memusage is reported on LZMA_MEMLIMIT_ERROR.",
+       + " Further rules: direct-mode clear_cache/threads_end before the single-thread decoder allocates; lz decoder reallocates the dictionary only when the size differs; memusage is reported on LZMA_MEMLIMIT_ERROR."
+       + " xz compares the usage with the limit of the current operation mode.",
   technique="must-pass-through (edge cut) on finite-domain product graphs, table joins, dominance rules",
   ref="4/C09"),
  "C04": dict(
@@ -139,7 +147,8 @@ CLAIMED = {
        "that no exported function can return an internal code and no coder returns LZMA_BUF_ERROR itself (multi-call VLI calls "
        "only with a non-empty buffer); the record allocated for each coder is the one its slot functions cast to; allocation "
        "results are NULL-tested. Absence of ALL memory errors, arithmetic UB and termination are NOT decided. Also (ALLOCSZ) input-controlled element counts in C1 + n*C2 allocation sizes are clamped so the size cannot wrap; the LOCALOWN (no leak on rejected Block Headers) and PROGRESS (worker publishes progress unconditionally) rules shared with C10/C07."
-       + " Further rules: BUF_ERROR from lzma_index_hash_decode cannot escape stream_decode/stream_decode_mt (call only with *in_pos < in_size).",
+       + " Further rules: BUF_ERROR from lzma_index_hash_decode cannot escape stream_decode/stream_decode_mt (call only with *in_pos < in_size)."
+       + " (WAIT) lost-wake-up rule of C07 on the threaded decoder; dict_get/dict_repeat sibling and DICTFRESH rules.",
   technique="must-availability dataflow on a finite-domain product graph, interprocedural return-code sets with slot typestate, type-agreement joins",
   ref="4/C04"),
  "C11": dict(
@@ -169,7 +178,8 @@ CLAIMED = {
        "obligations (guard present and its violating edge returns the error code) for reserved bits, VLI rules, Filter IDs, "
        "chain rules and chunk/stream end conditions; every state enumerator of 12 decoder machines has a reachable case. "
        "Does NOT decide that accepted streams decode to the specified bytes. Also (DICTRESET) lz_decoder_reset() re-initialises every lzma_dict member that decoding modifies; (RESUME) the liveness/save-restore rule of C06 applied to the decoder functions."
-       + " Further rules: (BLOCK) the block_decode obligations of C05; (RESET) the probability reset rule of C01 on the decoder.",
+       + " Further rules: (BLOCK) the block_decode obligations of C05; (RESET) the probability reset rule of C01 on the decoder."
+       + " (SEQLABEL) each suspension of lzma_decode stores the state whose case label it sits under; (FASTSLOW) both copies of the symbol decoder expand literal_subcoder identically; (DICTFRESH).",
   technique="finite-domain abstract interpretation of decision expressions vs spec tables, guard obligations, reachability on the product graph",
   ref="4/C03"),
  "C07": dict(
@@ -180,7 +190,8 @@ CLAIMED = {
        "state before unlocking; every write to a wait-predicate field is followed by a signal; exit->join->free; the "
        "CVE-2025-31115 worker rules; pending error only after the queue drained. Found the unlocked progress_in update (fixed). "
        "These are necessary conditions; absence of all races/deadlocks and output equality are NOT decided. Also (STOPACK) the worker never overwrites THR_EXIT; (QUIESCE/INITCONS) re-initialisation stores to worker-visible members only after threads_end and initialises session members on every path; (ACCT) amounts added to mem_in_use equal the per-thread amounts the worker subtracts and those are main-thread-only; (PROGRESS) partial-output enabling and progress publication are controlled by exactly the documented conditions."
-       + " Further rules: worker-wait: the main thread waits only while a worker can still make progress; STOPACK/QUIESCE as in C08.",
+       + " Further rules: worker-wait: the main thread waits only while a worker can still make progress; STOPACK/QUIESCE as in C08."
+       + " (WAITARG) states that cannot consume input pass waiting_allowed = true; (OUTQRESET) lzma_outq_init resets read_pos.",
   technique="must-lockset dataflow over a finite-domain product graph, protected-field table, must-pass rules",
   ref="4/C07"),
  "C08": dict(
@@ -189,7 +200,8 @@ CLAIMED = {
        "reported finished and with exactly its sizes; FULL_FLUSH complete only with an empty queue; FINISH only after the "
        "Index encoder finished; worker errors reported through worker_error(). Found the early thread_error reset on "
        "re-initialisation (fixed). Schedule-independence of the output bytes is NOT decided. Also (STOPACK) a stopped worker reports idle only after its last access to coder-mutex data and never overwrites THR_EXIT; (QUIESCE) the init function stores to worker-visible members only after threads_stop/threads_end; (INITCONS) members (threads_free, thr, ...) initialised on some OK paths are initialised on all."
-       + " Further rules: progress-transfer-atomic: a finished worker's progress moves from the per-thread to the coder totals in one critical section.",
+       + " Further rules: progress-transfer-atomic: a finished worker's progress moves from the per-thread to the coder totals in one critical section."
+       + " (SIZEKEY) coder->block_size changes only together with the workers' input buffers; (OUTQRESET); get_progress takes one snapshot under coder->mutex.",
   technique="must-lockset dataflow over a finite-domain product graph, protected-field table, must-pass rules",
   ref="4/C08"),
  "C10": dict(
@@ -199,7 +211,8 @@ CLAIMED = {
        "allocation result is NULL-tested before dereference; public stream inits go through lzma_next_strm_init; no lzma_ret "
        "result is dropped; strong-guarantee APIs store nothing caller-visible before failing. Does NOT decide allocation balance "
        "for every failing k at run time. Also (INITORD) members released by end() are initialised before any return after next->coder is published; (CACHEKEY) a size key of a cached allocation is updated only after the allocation succeeded; (LOCALOWN) filter options held in function-local arrays are freed or transferred on every path."
-       + " Further rules: (ALIAS) a freed member is cleared or overwritten before any path can free it again, with the callers that clear it listed.",
+       + " Further rules: (ALIAS) a freed member is cleared or overwritten before any path can free it again, with the callers that clear it listed."
+       + " (SIZEKEY) a member that gives the allocated size of a kept buffer changes only with the buffer (7 pairs discovered from allocation sites); CACHEKEY fail-path: the key is invalidated when the re-allocation fails.",
   technique="ownership/effect dataflow over clang CFGs, field-coverage joins over record layouts, unused-result rule on resolved callees",
   ref="4/C10"),
  "C13": dict(
@@ -209,7 +222,8 @@ CLAIMED = {
        "any path ending in an error return (product-graph effect analysis, restore idiom recognised); every format limit has "
        "its guard; iterator never keeps the reallocated rightmost group; file_info seek target only decreases under a "
        "dominating bound check. Does NOT decide tree balancing, locate results or size arithmetic. Also (SEEKSTATE) file_info_decode advances coder->sequence after every compound update of its position bookkeeping before it can return LZMA_SEEK_NEEDED; (PROV) Block numbers derive from the Stream's Record count, xz --list reads the Check at total_size - check size."
-       + " Further rules: (APPLY) padding found / bytes used in one call are applied to stream_padding etc. on every non-fatal way out; PROV also: number-base, totals line sums lzma_index_file_size.",
+       + " Further rules: (APPLY) padding found / bytes used in one call are applied to stream_padding etc. on every non-fatal way out; PROV also: number-base, totals line sums lzma_index_file_size."
+       + " (IDXDEC) index_decode ends only through its checks; (TREEWALK) no link member read after index_tree_append; (CURPOS) file_cur_pos advances only by application input.",
   technique="field-coverage and effect-ordering dataflow on the product graph, dominator-based guard rules, who-may-write",
   ref="4/C13"),
  "C05": dict(
@@ -228,7 +242,8 @@ CLAIMED = {
        "state (found the eopm_is_valid defect, now fixed); (CRC) running CRC32 of the Index codecs updated on every "
        "non-fatal return after the position advanced; (DET) no nondeterminism source reachable from coder code. "
        "Does NOT decide output equality across slicings in general. Also (END) resumable encoders return LZMA_STREAM_END only from their final state; (SLICE) size-mismatch errors of the Block decoder only when the other buffer had room; (INITCONS) a session member initialised on some OK paths of an init function is initialised on all; (INITONCE) coder->sequence is advanced before any non-fatal return that follows a nested coder initialisation."
-       + " Further rules: (READFIRST) every member a coding function can read before storing to it is stored by the init function on all OK paths (whole-record, 109 instances); (APPLY) an amount measured in one call is applied to its persistent member on every non-fatal way out; (ACCUM); (PROV) match-finder window geometry keeps after_size + match_len_max bytes ahead; (END/SLICE) Block encoder ends only after the Check was copied.",
+       + " Further rules: (READFIRST) every member a coding function can read before storing to it is stored by the init function on all OK paths (whole-record, 109 instances); (APPLY) an amount measured in one call is applied to its persistent member on every non-fatal way out; (ACCUM); (PROV) match-finder window geometry keeps after_size + match_len_max bytes ahead; (END/SLICE) Block encoder ends only after the Check was copied."
+       + " (SEQLABEL) as in C03.",
   technique="liveness + reaching definitions over resume labels (clang CFG), finite-domain product-graph dataflow, call-graph reachability",
   ref="4/C06"),
 }
